@@ -792,16 +792,20 @@ fn pre_validate_point(val: &str, components: usize) -> ClResult<()> {
             break parts.next().is_none();
         }
         if let Some(idx) = parts.next() {
-            // amcl parses this component as an `i32` (and unwraps the result)
+            // amcl parses this component (the "excess" of a field element) as an `i32`, unwraps
+            // the result and does unchecked arithmetic on it; its own invariant is FEXCESS
             match idx.parse::<i32>() {
-                Ok(v) if v > 0 => {}
+                Ok(v) if v > 0 && v <= amcl::bn254::fp::FEXCESS => {}
                 _ => break false,
             }
         } else {
             break false;
         }
         if let Some(hex) = parts.next() {
-            if validate_hex(hex.as_bytes()).is_none() {
+            // a BIG holds NLEN * BASEBITS bits; longer text overflows its top limb
+            if hex.len() > amcl::bn254::big::NLEN * amcl::bn254::big::BASEBITS / 4
+                || validate_hex(hex.as_bytes()).is_none()
+            {
                 break false;
             }
         } else {
